@@ -1,8 +1,12 @@
-"""BinPack adapter.  Lean: Env/BinPack/Model.lean, Bridge/BinPack.lean  (relational model, DESIGN A.4).
+"""BinPack adapter.  Lean: Env/BinPack/Model.lean, Bridge/BinPack.lean  (DESIGN A.4).
 
-* `_update_ems` is modelled as a relation: the successor EMS buffer of a packing step is handed to the model as the
-  `draw` of the step; `bin_pack.step` throws when it is outside the relation (every new active EMS is an old
-  active EMS clear of the new item, or hyperplane(item, axis, dir) ∩ old active EMS).
+* `_update_ems` is modelled twice: as the L1 transliteration `updateEms` (deterministic step `step₁`, what
+  `bin_pack.step` returns) and as a relation `EmsRel` on the successor EMS buffer.  The successor buffer of the
+  implementation is handed to `bin_pack.step` as the `draw` of a step that packs an item; the op throws when it is
+  outside the relation (every new active EMS is an old active EMS clear of the new item, or
+  hyperplane(item, axis, dir) ∩ old active EMS) or when its SET of active EMSs differs from the one `updateEms`
+  computes (C04 / C05 sweeps).  The C09 sweep compares the whole successor state of `step₁` with the implementation's,
+  slot by slot.
 * C10 needs `generate_solution(key)` for the key of each reset.  The generic sweep only hands the reset *state* to
   the adapter and `state.key` is not the reset key, so the environments built here are `BinPack` instances whose
   `reset` additionally reports (state.key, reset key) to the adapter through `jax.debug.callback` (a pure side
@@ -48,7 +52,7 @@ def _space(sp):
 class A(Adapter):
     name = "bin_pack"
     lean = "bin_pack"
-    serves = {"C01", "C04", "C05", "C06", "C08", "C10", "C11", "C12"}
+    serves = {"C01", "C04", "C05", "C06", "C08", "C09", "C10", "C11", "C12"}
     ops = ("state", "step", "judge", "instance", "bounds")
     terminate_on_invalid = True
     max_steps = 40
@@ -143,7 +147,8 @@ class A(Adapter):
         return [int(a[0]), int(a[1])]
 
     def draw(self, env, s, a, s2, ts):
-        """the successor EMS buffer of a step that packed something (the relational part of the model)"""
+        """the successor EMS buffer of a step that packed something: judged against the relation `EmsRel` and compared
+        (as a set of active EMSs) with the model's `updateEms` by `bin_pack.step`"""
         if np.array_equal(np.asarray(s.items_placed), np.asarray(s2.items_placed)):
             return None
         return {"ems": _space(s2.ems), "ems_mask": ser(s2.ems_mask)}
